@@ -33,6 +33,7 @@ class Stats:
         self.time = 0.0
         self.second_opinions = 0
         self.second_disagree = 0
+        self.normal_form = 0        # identities decided by the exact ring normal form (side conditions still go to z3)
 
 
 STATS = Stats()
@@ -642,6 +643,7 @@ def prove_rat_eq(lhs, rhs, assumptions=(), timeout_ms=None, subst=()):
         if ok:
             STATS.queries += 1
             STATS.unsat += 1
+            STATS.normal_form += 1
             STATS.time += time.time() - t0
             return Result("unsat", time.time() - t0, reason="rational normal form")
     return prove(lhs == rhs, assumptions, timeout_ms=timeout_ms)
